@@ -434,7 +434,7 @@ function lexScriptSource(names) {
 }
 
 // returns {syntax:"msg"} | {timeout:true} | observation
-function observe(src, seed, opts, names) {
+function observe(src, seed, opts, names, timeoutMs = TIMEOUT_MS) {
   let script;
   try { script = new vm.Script(src, { filename: 'prog.js' }); } catch (e) {
     return { syntax: String(e && e.message).slice(0, 200) };
@@ -442,7 +442,7 @@ function observe(src, seed, opts, names) {
   const w = new World(seed, opts);
   let completion;
   try {
-    script.runInContext(w.ctx, { timeout: TIMEOUT_MS, displayErrors: false });
+    script.runInContext(w.ctx, { timeout: timeoutMs, displayErrors: false });
     completion = { type: 'normal' };
   } catch (e) {
     if (e && e.code === 'ERR_SCRIPT_EXECUTION_TIMEOUT') return { timeout: true };
@@ -526,7 +526,8 @@ function compare(req) {
   if (oa.syntax !== undefined) return { id, same: true, skip: 'input syntax error', why: oa.syntax };
   if (oa.timeout) return { id, same: true, skip: 'timeout', why: '' };
   if (oa.overflow) return { id, same: true, skip: 'trace overflow', why: '' };
-  const ob = observe(req.b, seed, opts, names);
+  let ob = observe(req.b, seed, opts, names);
+  if (ob.timeout) ob = observe(req.b, seed, opts, names, 8 * TIMEOUT_MS); // a loaded machine must not look like a hang
   if (ob.syntax !== undefined) return { id, same: false, skip: '', why: 'output does not parse: ' + ob.syntax, oa: render(oa, oa, 0), ob: '' };
   if (ob.timeout) return { id, same: false, skip: '', why: 'output timed out', oa: render(oa, oa, 0), ob: '' };
   const d = firstDiff(oa, ob);
